@@ -334,6 +334,7 @@ void h_rt_setup(void)
 	} else {
 		__CPROVER_assert(r == -1 && !present, "C03.setup.refused-request-is-not-registered");
 		__CPROVER_assert(verif_started == 0 || verif_start_ret < 0, "C14.setup.refused-request-has-no-armed-timer");
+		__CPROVER_assert(verif_started == 0 || verif_start_ret < 0, "C03.setup.refused-request-cannot-be-answered-a-second-time-by-its-timer");
 		__CPROVER_assert(verif_timer_inits == 0 || verif_timer_init_ret < 0 || verif_destroyed[1] == 1, "C07.setup.timer-of-a-refused-request-is-destroyed");
 	}
 	if (present) verif_rt_remove(own->routing_table, q->id, NULL);
@@ -344,7 +345,7 @@ void h_rt_setup(void)
 	VERIF_COVER(r == 0 && has_timeout, "armed with the request's timeout");
 	VERIF_COVER(r == -1 && verif_timer_inits == 1 && verif_timer_init_ret == 0 && verif_started == 1, "timer start failed");
 	VERIF_COVER(r == -1 && has_timeout && verif_to_ret == 0, "illegal timeout");
-	VERIF_COVER(r == -1 && verif_timer_inits == 1 && verif_timer_init_ret == 0 && verif_started == 0, "routing table full");
+	VERIF_COVER(r == -1 && verif_timer_inits == 1 && verif_timer_init_ret == 0 && verif_rt_refuse && verif_start_ret == 0, "routing table full");
 }
 
 /* ---- rt.alloc: routed request ids are unique among the requests in flight --------------------------------
